@@ -58,30 +58,46 @@ Definition uout_eqb (mask : N) (m i : uout) : bool :=
 
 Definition is_large (pm : pmap) : bool := match pm with Large _ _ => true | Small _ => false end.
 
-(* Run one op of the history.  For an announce on a heap map every offset pair below the
-   map's length is tried (the model reduces offsets modulo its ranges, so this covers every
-   outcome the model allows). *)
+(* Which peer lists may a heap-map selection return?  Every offset pair below the map's length
+   is tried (the model reduces offsets modulo its ranges, so this covers every outcome the model
+   allows).  Only the selection is re-evaluated, not the whole step. *)
+Definition large_rest (pm : pmap) (key : N) : option entries :=
+  match pm with
+  | Large l _ => Some (snd (im_swap_remove key l))
+  | Small _ => None
+  end.
+
+Definition peers_possible (take : nat) (pm : pmap) (key : N) (impl_peers : list N) : bool :=
+  match large_rest pm key with
+  | None => false
+  | Some l1 =>
+      let cands := seq 0 (S (length l1)) in
+      existsb (fun a => existsb (fun b =>
+        match extract_large take l1 a b with
+        | Ok p => list_eqb N.eqb p impl_peers
+        | Panic => false
+        end) cands) cands
+  end.
+
+Definition impl_peers_of (o : uout) : list N :=
+  match o with OAnnounce _ _ p _ => p | _ => [] end.
+
+(* Run one op of the history. *)
 Definition check_op (mask : N) (cfg : ucfg) (s : ustate) (op : uop) (impl : uout) : option ustate :=
-  match op with
-  | UAnnounce v6 hash key ev bleft pid until want _ _ =>
-      let n := S (length (pm_entries (tm_get hash (ufam s v6)))) in
-      let cands := seq 0 n in
-      match u_step cfg s op with
-      | Ok (s', out) =>
-          if uout_eqb mask out impl then Some s'
-          else if existsb (fun a => existsb (fun b =>
-                    match u_step cfg s (UAnnounce v6 hash key ev bleft pid until want a b) with
-                    | Ok (_, out') => uout_eqb mask out' impl
-                    | Panic => false
-                    end) cands) cands
-               then Some s' else None
-      | Panic => None
-      end
-  | _ =>
-      match u_step cfg s op with
-      | Ok (s', out) => if uout_eqb mask out impl then Some s' else None
-      | Panic => None
-      end
+  match u_step cfg s op with
+  | Ok (s', out) =>
+      if uout_eqb mask out impl then Some s'
+      else
+        match op with
+        | UAnnounce v6 hash key _ _ _ _ want _ _ =>
+            (* everything but the peer list must agree, and the peer list must be one the
+               model allows under some offsets *)
+            if uout_eqb (N.land mask 29) out impl
+               && peers_possible (limit_udp want (c_max_resp cfg)) (tm_get hash (ufam s v6)) key (impl_peers_of impl)
+            then Some s' else None
+        | _ => None
+        end
+  | Panic => None
   end.
 
 Definition any_large (s : ustate) : bool :=
